@@ -343,7 +343,11 @@ func (c *RootConfig) Initialize(ctx context.Context) error {
 		}
 		parentPkgConfig := c.Packages[recursivePackageName]
 		for _, subpkg := range subpkgs {
-			if c.ShouldExcludeSubpkg(subpkg) {
+			exclude, err := c.ShouldExcludeSubpkg(subpkg)
+			if err != nil {
+				return fmt.Errorf("evaluating `exclude-subpkg-regex`: %w", err)
+			}
+			if exclude {
 				pkgLog.Debug().Msg("package was marked for exclusion")
 				continue
 			}
@@ -557,17 +561,17 @@ func (c *Config) FilePath() *pathlib.Path {
 	return pathlib.NewPath(*c.Dir).Join(*c.FileName).Clean()
 }
 
-func (c *Config) ShouldExcludeSubpkg(pkgPath string) bool {
+func (c *Config) ShouldExcludeSubpkg(pkgPath string) (bool, error) {
 	for _, regex := range c.ExcludeSubpkgRegex {
 		matched, err := regexp.MatchString(regex, pkgPath)
 		if err != nil {
-			panic(err)
+			return false, err
 		}
 		if matched {
-			return true
+			return true, nil
 		}
 	}
-	return false
+	return false, nil
 }
 
 func IsAutoGenerated(path *pathlib.Path) (bool, error) {
